@@ -61,6 +61,12 @@ def make_cases(rng, tier):
                       % (j, k, 1 + k % 5, k, k, j, k) for k in range(nst)) + "\n@compute @workgroup_size(1) fn main() { _ = h0.a; }\n"
         out.append({"id": len(out), "wgsl": w, "include": None, "opts": {"rustfmt": True, "bm_host": True, "encase": True, "mv": "Glam"},
                     "want_text": True, "nt": True})
+    # the validator's verdict depends on the capability set given with THIS call: the same text under restrictive /
+    # permissive / restrictive sets (a result must not depend on what earlier calls in the process were given)
+    for t in ("var<push_constant> pc: vec4<f32>;\n@fragment fn fs() -> @location(0) vec4<f32> { return pc; }\n",
+              "@group(0) @binding(0) var<storage, read> data: array<f64>;\n@compute @workgroup_size(1) fn cs() { _ = data[0]; }\n"):
+        for caps in ("empty", "all", "empty", "all"):
+            out.append({"id": len(out), "wgsl": t, "include": None, "opts": {"validate": True, "caps": caps}, "want_text": True, "nt": True})
     return out
 
 
@@ -119,6 +125,34 @@ def run(tier, seed, replay):
                                    "variant": {"index": k, "cwd": cwd, "env": env, "order_head": order[:5]},
                                    "first": first[i][1][:1500] if first[i][1] else first[i], "other": v[1][:1500] if v[1] else v, "kf": None})
                 break
+    # more simultaneous formatter calls than cores: 64 distinct small shaders with rustfmt on, generated by one worker
+    # (sequential baseline) and by 64 workers at once; every text must be the same
+    storm = []
+    for j in range(64):
+        p_ = W.random_program(rng, pc=(j % 4 == 0))
+        storm.append({"id": j, "wgsl": p_.render() + "// storm %d\n" % j, "include": None if j % 3 else "s/%d.wgsl" % j,
+                      "opts": {"rustfmt": True}, "want_text": True})
+    storm_res = []
+    for label, threads in (("sequential", "1"), ("64 workers", "64")):
+        cin = os.path.join(workdir, "storm_%s.jsonl" % threads)
+        cout = os.path.join(workdir, "storm_%s.results.jsonl" % threads)
+        with open(cin, "w") as f:
+            for c in storm:
+                f.write(json.dumps(c, ensure_ascii=False) + "\n")
+        env = dict(os.environ, DRIVER_THREADS=threads, DRIVER_CHUNK="1")
+        p = subprocess.run([DRIVER, "gen", cin, cout], env=env, stdout=subprocess.PIPE, stderr=subprocess.STDOUT, timeout=600)
+        if p.returncode != 0:
+            broken.append({"what": "driver failed in the formatter storm (%s)" % label, "detail": p.stdout.decode(errors="replace")[-1000:]})
+            break
+        storm_res.append({json.loads(l)["id"]: (json.loads(l).get("result"), json.loads(l).get("text")) for l in open(cout)})
+        evals += len(storm)
+    if len(storm_res) == 2:
+        for j in range(len(storm)):
+            if storm_res[0][j] != storm_res[1][j]:
+                violations.append({"what": "a call made while many other threads were generating (64 concurrent calls, rustfmt on) returned a different text than the same call made alone",
+                                   "wgsl": storm[j]["wgsl"], "opts": storm[j]["opts"], "include": storm[j]["include"],
+                                   "variant": {"workers": 64}, "first": (storm_res[0][j][1] or "")[:1500], "other": (storm_res[1][j][1] or "")[:1500], "kf": None})
+                break
     strace_note = "not run (quick tier)"
     if tier == "thorough":
         rc, _ = sh("command -v strace")
@@ -143,5 +177,5 @@ def run(tier, seed, replay):
     nontriv = {(c["wgsl"], json.dumps(c["opts"], sort_keys=True)) for c in cases if c["nt"]}
     cov = {"evaluations": evals, "distinct_nontrivial": len(nontriv), "process_runs": nruns, "cases_per_run": len(cases),
            "samples": [{"wgsl": cases[0]["wgsl"][:500], "opts": cases[0]["opts"], "variants": [{"cwd": v[2], "env_keys": sorted(v[1])} for v in variants[:3]]}],
-           "traces_validated_against_impl": evals, "strace": strace_note, "worker_threads": 16}
+           "traces_validated_against_impl": evals, "strace": strace_note, "worker_threads": 16, "formatter_storm_workers": 64}
     return {"violations": violations, "broken": broken, "coverage": cov}
